@@ -12,7 +12,7 @@
 From Verif.Base Require Import Bytes PathClean.
 From Verif.Gen Require Import GenConsts.
 From Verif.Module Require Import Path.
-From Verif.Zip Require Import Check Create ProofsPath ProofsColl ProofsZip ProofsCreate ProofsCreateZip.
+From Verif.Zip Require Import Check Create Fs Unzip ProofsPath ProofsColl ProofsZip ProofsUnzip ProofsCreate ProofsCreateZip ProofsCreateUnzip.
 
 (* Given a valid module path with a matching canonical version and valid files that can be
    opened and whose content has the size they report, creation succeeds exactly when the file
@@ -74,3 +74,30 @@ Theorem C05_created_zip_restrictions :
     file_entries prefix z = z.
 Proof. exact created_zip_restrictions. Qed.
 Print Assumptions C05_created_zip_restrictions.
+
+(* Whenever creation succeeds, extracting the archive into a clean absolute directory that is
+   absent or empty succeeds, and the extracted files are exactly the files reported as valid by
+   the file check, byte for byte, and nothing else (zipsize: see above). *)
+Theorem C05_create_then_unzip_tree :
+  forall (mp mv : str) (files : list file) (z : list entry) (s : fs) (dir : str) (zipsize : Z),
+    create mp mv files = CrOk z -> zipsize <= zip_MaxZipFile ->
+    (exists ds, ds <> [] /\ Forall good_elem ds /\ dir = abs_path ds) ->
+    (forall q, (exists rest, rest <> [] /\ q = dir ++ 47 :: rest) -> fs_lookup s q = None) ->
+    fs_has_children s dir = false ->
+    (exists evs0, mkdir_all (length dir) s dir = MkOk evs0) ->
+    exists evs, unzip s dir mp mv zipsize z = (UzOk, evs) /\
+      let s' := apply_events s evs in
+      (forall f, In f (valid_files files) ->
+         fs_lookup s' (dir ++ 47 :: f_path f) = Some (FFile (f_content f))) /\
+      (forall q c, (exists rest, rest <> [] /\ q = dir ++ 47 :: rest) -> fs_lookup s' q = Some (FFile c) ->
+         exists f, In f (valid_files files) /\ q = dir ++ 47 :: f_path f /\ c = f_content f).
+Proof. exact create_then_unzip_tree. Qed.
+Print Assumptions C05_create_then_unzip_tree.
+
+(* non-vacuity: a list Create accepts *)
+Example C05_create_succeeds :
+  exists z, create (B "example.com/m") (B "v1.0.0")
+              [mkFile (B "go.mod") true MRegular 9 true (B "module m" ++ [10]) false;
+               mkFile (B "a/b.go") true MRegular 2 true (B "xy") false;
+               mkFile (B "vendor/x/y.go") true MRegular 1 true (B "z") false] = CrOk z /\ length z = 2%nat.
+Proof. eexists. vm_compute. split; reflexivity. Qed.
